@@ -893,6 +893,30 @@ def _dc_replace(ex, st, args, kwargs):
     raise U(f"dataclasses.replace of {o!r}")
 
 
+def _get_origin(ex, st, args, kwargs):
+    """typing.get_origin(tp): None for a plain class, else the generic's origin - an uninterpreted function of tp."""
+    from .contracts import pure_result
+
+    a = st.deref(args[0])
+    if a is None:
+        yield st, None
+        return
+    if isinstance(a, Opaque):
+        yield st, pure_result(ex, st, "typing.get_origin", "u:TypeOrigin|None", [a])
+        return
+    raise U(f"typing.get_origin of {a!r}")
+
+
+def _get_args(ex, st, args, kwargs):
+    from .contracts import pure_result
+
+    a = st.deref(args[0])
+    if isinstance(a, Opaque):
+        yield st, pure_result(ex, st, "typing.get_args", "seq[u:type]", [a])
+        return
+    raise U(f"typing.get_args of {a!r}")
+
+
 def _object(ex, st, args, kwargs):
     yield st, Opaque("object")
 
@@ -901,6 +925,7 @@ FUNCS = {
     "math.isfinite": _isfinite, "object": _object,
     "copy.deepcopy": _deepcopy, "copy.copy": _deepcopy,
     "dataclasses.fields": _dc_fields, "dataclasses.replace": _dc_replace,
+    "typing.get_origin": _get_origin, "typing.get_args": _get_args,
     "round": _round,
     "operator.eq": _operator(ast.Eq), "operator.ne": _operator(ast.NotEq), "operator.lt": _operator(ast.Lt),
     "operator.le": _operator(ast.LtE), "operator.gt": _operator(ast.Gt), "operator.ge": _operator(ast.GtE),
